@@ -201,10 +201,15 @@ class Gen:
 
     def collection(self, depth=0):
         rng = self.rng
-        n = rng.randint(1, 3)
-        items = [self.component(depth) for _ in range(n)]
+        big = depth == 0 and rng.random() < 0.06
+        if big:
+            # a long list-built collection: positions 10, 11 ... sort before 2 as strings
+            items = [self.model(rng.choice(["P1", "P1", "P0", "P2"]), depth + 2) for _ in range(rng.randint(11, 13))]
+        else:
+            n = rng.randint(1, 3)
+            items = [self.component(depth) for _ in range(n)]
         h = self.fresh("c")
-        form = rng.choice(["list", "dict", "kw", "append"])
+        form = rng.choice(["list", "append"]) if big else rng.choice(["list", "dict", "kw", "append"])
         if rng.random() < 0.2:
             # a prior or a constant held directly by the collection
             items.append(self.pick_prior() if rng.random() < 0.7 else None)
